@@ -18,7 +18,7 @@ class Adapter:
         build.import_catii()
 
     def opts(self, tier):
-        return {"tier": tier}
+        return {"tier": tier, "prop": self.prop}
 
     def n_runs(self, tier):
         return self.RUNS[tier]
